@@ -24,6 +24,11 @@ pub struct DiskCtl {
     pub rnd_budget: u32,
     pub ops: u64,
     pub bytes_written: u64,
+    /// power-loss semantics for WAL segments: at a crash every segment file is cut back to the length
+    /// it had at its last successful sync (bytes written but never synced are lost)
+    pub power_loss: bool,
+    pub synced_len: std::collections::BTreeMap<std::path::PathBuf, u64>,
+    pub seen_files: std::collections::BTreeSet<std::path::PathBuf>,
 }
 
 thread_local! {
@@ -45,6 +50,27 @@ pub fn cleanup_scratch() {
     let _ = std::fs::remove_dir_all(d);
 }
 
+/// Apply power-loss semantics to the WAL segments (called when the node dies).
+pub fn apply_power_loss() {
+    with(|d| {
+        if !d.power_loss {
+            return;
+        }
+        let files: Vec<std::path::PathBuf> = d.seen_files.iter().cloned().collect();
+        for f in files {
+            let keep = d.synced_len.get(&f).copied().unwrap_or(0);
+            if let Ok(md) = std::fs::metadata(&f) {
+                if md.len() > keep {
+                    if let Ok(h) = std::fs::OpenOptions::new().write(true).open(&f) {
+                        let _ = h.set_len(keep);
+                        sim::fault_fired("power_loss_dropped_unsynced_bytes");
+                    }
+                }
+            }
+        }
+    });
+}
+
 fn die(d: &mut DiskCtl, what: &str) {
     let node = d.node;
     d.write_budget = None;
@@ -64,6 +90,9 @@ pub fn install(node: u32) {
             let act = DISK.with(|d| {
                 let mut d = d.borrow_mut();
                 d.ops += 1;
+                if name.starts_with("segment-") {
+                    d.seen_files.insert(path.to_path_buf());
+                }
                 // one-shot deterministic plans first
                 if let Some((k, n, arg)) = d.die_on.clone() {
                     if k == op {
@@ -139,6 +168,12 @@ pub fn install(node: u32) {
                 }
                 if op == "write" {
                     d.bytes_written += len as u64;
+                }
+                if op == "sync" {
+                    // everything written to this file so far is durable from now on
+                    if let Ok(md) = std::fs::metadata(path) {
+                        d.synced_len.insert(path.to_path_buf(), md.len());
+                    }
                 }
                 FsAction::Proceed
             });
